@@ -23,7 +23,7 @@ def in_scope(prop: str, short: str, cls: str, member: str) -> bool:
             return True
         if prop == "C16" and short in ("matrix/cubemeasure.py", "cube.py") and ("unconditional" in tag or "counts_with_missings" in tag):
             return True
-        return short in MEASURE_MODULES + ("matrix/cubemeasure.py", "stripe/cubemeasure.py", "matrix/subtotals.py", "stripe/insertion.py") and any(w in tag for w in WORDS[prop])
+        return short in MEASURE_MODULES + ("matrix/cubemeasure.py", "stripe/cubemeasure.py", "matrix/subtotals.py", "stripe/insertion.py", "cube.py") and any(w in tag for w in WORDS[prop])
     if prop == "C01":
         return short in ("cube.py", "matrix/cubemeasure.py", "stripe/cubemeasure.py") and "unconditional" not in tag
     if prop == "C02":
@@ -37,11 +37,11 @@ def in_scope(prop: str, short: str, cls: str, member: str) -> bool:
     if prop == "C07":
         return short == "collator.py" and "sortbyvalue" not in tag or (short == "dimension.py" and ("anchor" in tag or "subtotals." in tag or "_orderspec" in tag))
     if prop == "C08":
-        return (short == "collator.py" and "sortbyvalue" in tag) or (short in ("matrix/assembler.py", "stripe/assembler.py") and "sort" in tag)
+        return (short == "collator.py" and "sortbyvalue" in tag) or (short in ("matrix/assembler.py", "stripe/assembler.py") and ("sort" in tag or "orderhelper" in tag or "measure" in tag))
     if prop == "C09":
         return (short == "collator.py" and ("hidden" in tag or "display_order" in tag)) or (short in ("matrix/assembler.py", "stripe/assembler.py") and ("prun" in tag or "empty" in tag or "display_order" in tag)) or (short in ("matrix/cubemeasure.py", "stripe/cubemeasure.py") and "prun" in tag) or (short == "dimension.py" and ("hidden" in tag or "prune" in tag or "hide" in tag))
     if prop == "C19":
-        return (short == "dimension.py" and ("elementidshim" in tag or "translate" in tag or "_build_element_id" in tag)) or (short == "matrix/assembler.py" and ("_column_idx" in tag or "_row_idx" in tag))
+        return (short == "dimension.py" and ("elementidshim" in tag or "translate" in tag or "_build_element_id" in tag)) or (short in ("matrix/assembler.py", "stripe/assembler.py") and ("_idx" in tag or "orderhelper" in tag))
     if prop == "C18":
         return True
     return False
